@@ -125,8 +125,15 @@ func (w *world) set(out *vt.W, xs []X) {
 	args := w.mk(xs)
 	var err error
 	p := guard(func() { err = w.t.SetExons(args...) })
+	after, xsafter := w.rd(w.t.Exons()), w.rd(args)
+	// the caller goes on using its own slice: every element is overwritten with the first one (an overlapping
+	// layout); the exon set the transcript holds must not follow
+	for i := range args {
+		args[i] = args[0]
+	}
 	out.Emit(vt.Ev{"op": "set", "holder": w.kind, "before": before, "xs": xs, "err": vt.ErrStr(err),
-		"after": w.rd(w.t.Exons()), "spare": cap(w.t.Exons()) - len(w.t.Exons()), "xsafter": w.rd(args), "panic": p})
+		"after": after, "spare": cap(w.t.Exons()) - len(w.t.Exons()), "xsafter": xsafter, "panic": p,
+		"scribbled": w.rd(w.t.Exons())})
 }
 
 func se(f feat.Feature) []int { return []int{f.Start(), f.End()} }
